@@ -145,10 +145,14 @@ class Ctx(object):
 # ----------------------------------------------------------------------
 # generic lane-fact check
 # ----------------------------------------------------------------------
-def lane_facts(ctx, source, family, groups, cfg_filter=None, extra_defs=(), args_extra=(), module='TraceFacts', env_extra=None):
+def lane_facts(ctx, source, family, groups, cfg_filter=None, extra_defs=(), args_extra=(), module='TraceFacts', env_extra=None, cfgs=None, run_env=None):
     """Build <source> for every configuration x group, run family, TLC-judge the
     distinct facts, classify rejections.  Returns number of facts judged."""
-    cfgs = [c for c in ctx.cfgs if cfg_filter is None or cfg_filter(c)]
+    if cfgs is None:
+        cfgs = [c for c in ctx.cfgs if cfg_filter is None or cfg_filter(c)]
+    else:
+        ctx.cfgs = list(cfgs)
+        ctx.ev['configurations'] = [c.describe() for c in cfgs]
     jobs = []
     for c in cfgs:
         for g in groups:
@@ -156,6 +160,10 @@ def lane_facts(ctx, source, family, groups, cfg_filter=None, extra_defs=(), args
     ctx.log('building %d driver binaries (%s) ...' % (len(jobs), source))
     exes = build.build_many(jobs)
     ctx.log('running drivers (%s) ...' % family)
+    if run_env:
+        facts.RUN_ENV = dict(os.environ, **run_env)
+    else:
+        facts.RUN_ENV = None
     rjobs = []
     for tag, exe in exes.items():
         pre = os.path.join(ctx.scratch, '%s_%s' % (family, tag.replace('/', '_')))
